@@ -47,6 +47,11 @@ def history(draw):
             steps.append({"op": "fmt", "v": draw(st.sampled_from([0, 1]))})
         else:
             steps.append({"op": k})
+    if draw(st.integers(0, 11)) == 0:
+        # a flood: hundreds of bursts queued at once (several per frame and timeslot), as a busy multi-timeslot L1 produces
+        k = draw(st.sampled_from([200, 209, 260, 400]))
+        flood = [{"op": "arrive", "rel": 1 + (j % 30), "abs": None, "tn": j % 8, "badver": False} for j in range(k)]
+        steps = flood + [{"op": "tick", "gap": 1}] * 3 + steps
     return {"start": start, "steps": steps, "obs_ver": draw(st.sampled_from([0, 1]))}
 
 
@@ -143,7 +148,8 @@ def hist_oracle(case):
 def scenario(draw):
     return {"fn": draw(st.sampled_from([1000, 1000, 5, H - 1, 0])),
             "queue": draw(st.lists(st.sampled_from([-1, 0, 0, 1, 2]), min_size=0, max_size=4)),
-            "op": draw(st.sampled_from(["arrive", "arrive", "arrive", "POWEROFF", "POWEROFF", "POWERON", "SETFORMAT"])),
+            "op": draw(st.sampled_from(["arrive", "arrive", "arrive", "POWEROFF", "POWEROFF", "POWERON", "SETFORMAT",
+                                        "POWEROFF+POWERON", "POWEROFF+POWERON", "arrive+arrive", "arrive+POWEROFF", "POWERON+arrive"])),
             "rel": draw(st.sampled_from([-1, 0, 0, 1])), "badver": draw(st.integers(0, 7)) == 0,
             "fmt": draw(st.sampled_from([0, 1])), "obs_ver": draw(st.sampled_from([0, 1]))}
 
@@ -163,7 +169,7 @@ class RaceRun:
         self.trx = app.trx[0]
         self.bursts = {}          # id -> dict(fn, accepted, poweroff_possible)
         k = 0
-        if sc["op"] == "POWERON":
+        if sc["op"].startswith("POWERON"):
             s.cmd(0, "POWEROFF", [])
         else:
             for rel in sc["queue"]:
@@ -176,23 +182,30 @@ class RaceRun:
             raise HarnessError("Transceiver._tx_queue_lock is gone: cannot make the queue mutex visible to the scheduler")
         self.trx._tx_queue_lock = self.lock
         self.result = {}
-        op = sc["op"]
-        if op == "arrive":
-            k += 1
-            self.race_id = k
-            ver = 1 if sc["badver"] else 0
-            b = {"ver": ver, "fn": (F + sc["rel"]) % H, "tn": k % 8, "pwr": k, "bits": bits_for(k), "cls": "tx"}
-            app.net.inject(self.trx.data_if.sock, ref_trxd.encode(b), app.l1_addr(self.trx, "data"))
-            self.bursts[k] = {"fn": b["fn"], "accepted": None, "racing": True, "badver": sc["badver"]}
+        ops = sc["op"].split("+")
+        self.race_ids = []
+        self.poweroff_pos = ops.index("POWEROFF") if "POWEROFF" in ops else None
+        calls = []
+        for pos, op in enumerate(ops):
+            if op == "arrive":
+                k += 1
+                self.race_ids.append((k, pos))
+                ver = 1 if (sc["badver"] and pos == 0) else 0
+                b = {"ver": ver, "fn": (F + sc["rel"] + pos) % H, "tn": k % 8, "pwr": k, "bits": bits_for(k), "cls": "tx"}
+                app.net.inject(self.trx.data_if.sock, ref_trxd.encode(b), app.l1_addr(self.trx, "data"))
+                self.bursts[k] = {"fn": b["fn"], "accepted": None, "racing": True, "badver": ver == 1, "pos": pos}
+                calls.append(("arrive", k))
+            else:
+                text = {"POWEROFF": "CMD POWEROFF", "POWERON": "CMD POWERON", "SETFORMAT": "CMD SETFORMAT %d" % sc["fmt"]}[op]
+                app.net.inject(self.trx.ctrl_if.sock, text.encode() + b"\0", app.l1_addr(self.trx, "ctrl"))
+                calls.append(("ctrl", None))
 
-            def sock_op():
-                self.result["arrive"] = self.trx.recv_data_msg()
-        else:
-            text = {"POWEROFF": "CMD POWEROFF", "POWERON": "CMD POWERON", "SETFORMAT": "CMD SETFORMAT %d" % sc["fmt"]}[op]
-            app.net.inject(self.trx.ctrl_if.sock, text.encode() + b"\0", app.l1_addr(self.trx, "ctrl"))
-
-            def sock_op():
-                self.trx.ctrl_if.handle_rx()
+        def sock_op():
+            for kind, bid in calls:
+                if kind == "arrive":
+                    self.result[bid] = self.trx.recv_data_msg()
+                else:
+                    self.trx.ctrl_if.handle_rx()
         self.sock_op = sock_op
         self.air_by_tick = {}
         self.cur_tick = None
@@ -208,20 +221,27 @@ class RaceRun:
     def finish_and_check(self, desc):
         s, sc, F = self.s, self.sc, self.sc["fn"]
         app = s.app
-        if sc["op"] == "arrive":
-            r = self.result.get("arrive", "missing")
-            self.bursts[self.race_id]["accepted"] = bool(r) and r != "missing"
-            if not sc["badver"] and not self.bursts[self.race_id]["accepted"]:
+        ops = sc["op"].split("+")
+        for bid, pos in self.race_ids:
+            r = self.result.get(bid, "missing")
+            acc = bool(r) and r != "missing"
+            self.bursts[bid]["accepted"] = acc
+            # running when it arrived?  (initially off for the POWERON scenarios; off after an earlier POWEROFF)
+            was_on = (ops[0] != "POWERON" or "POWERON" in ops[:pos]) and "POWEROFF" not in ops[:pos]
+            should = was_on and not self.bursts[bid]["badver"]
+            if should and not acc:
                 raise Violation("c03:race:arrival-refused", "%s: burst with matching version refused while running" % desc)
-            if sc["badver"] and self.bursts[self.race_id]["accepted"]:
+            if acc and self.bursts[bid]["badver"]:
                 raise Violation("c03:race:wrong-version-accepted", desc)
-        powered_off = sc["op"] == "POWEROFF"
-        if sc["op"] in ("POWEROFF",):
+            if acc and not was_on:
+                raise Violation("c03:race:accepted-while-off", desc)
+        powered_off = self.poweroff_pos is not None
+        if not self.trx.running:
             # bring it back for the flush (POWERON does not resurrect anything that was discarded)
             s.app.cmd(self.trx, "RXTUNE 890000")
             s.app.cmd(self.trx, "TXTUNE 935000")
             s.app.cmd(self.trx, "POWERON")
-        if sc["op"] == "POWERON" and not self.trx.running:
+        if ops[-1] == "POWERON" and not self.trx.running:
             raise Violation("c03:race:poweron-lost", "%s: transceiver not running after POWERON completed" % desc)
         for k in range(1, 5):
             self.cur_tick = (F + k) % H
@@ -247,15 +267,16 @@ class RaceRun:
             for (tick, fn) in on_air:
                 if tick != b["fn"] or fn != b["fn"]:
                     raise Violation("c03:race:on-air-in-wrong-frame", "%s: burst %d for frame %d sent in tick %d" % (desc, bid, b["fn"], tick))
-            if powered_off and any(tick != F for (tick, fn) in on_air):
+            before_off = powered_off and (not b.get("racing") or b["pos"] < self.poweroff_pos)
+            if before_off and any(tick != F for (tick, fn) in on_air):
                 raise Violation("c03:race:transmitted-after-poweroff", "%s: burst %d (fn=%d) was queued when POWEROFF completed, yet it went on air in tick %r after the next POWERON" % (
                     desc, bid, b["fn"], [t for t, _ in on_air]))
-            if powered_off and st_ and any(t != F for t in st_):
+            if before_off and st_ and any(t != F for t in st_):
                 raise Violation("c03:race:survived-poweroff", "%s: burst %d (fn=%d) still queued (reported stale at %r) after POWEROFF completed" % (desc, bid, b["fn"], st_))
             n = len(on_air) + len(st_)
             if n > 1:
                 raise Violation("c03:race:duplicate-outcome", "%s: burst %d: on air %r, stale reports %r" % (desc, bid, on_air, st_))
-            if n == 0 and not powered_off:
+            if n == 0 and not before_off:
                 raise Violation("c03:race:burst-vanished", "%s: burst %d (fn=%d) accepted but never transmitted, reported stale or discarded by a power-off" % (desc, bid, b["fn"]))
             if st_ and not (0 < (st_[0] - b["fn"]) % H < H // 2):
                 raise Violation("c03:race:stale-report-for-future-frame", "%s: burst %d fn=%d reported stale at tick %d" % (desc, bid, b["fn"], st_[0]))
